@@ -1,6 +1,14 @@
-(* Property C13: a variable aliasing a sub-range of a vector reports exactly that sub-range. *)
+(* Property C13: a variable aliasing a sub-range of a vector reports exactly that sub-range.
+   Pinned: the slicer (slice_signal_spec, recorded_then_sliced and the byte-level facts under them) and the GHW
+   alias arithmetic in front of it (Proofs/AliasProofs.v): register_subrange_spec - a sub-range [mn..mx] of a
+   vector [pmin..pmax] is registered with the bounds msb = pmax - mn, lsb = pmax - mx, found again if registered before
+   and given a fresh reference otherwise; alias_bounds_select - those bounds make the slicer select exactly the
+   elements mn..mx of the parent's value (first declared element leftmost); refs_distinct_step - different sub-ranges
+   never share a signal reference.
+   NOT proved: that find_vec identifies the parent vector (it is a premise of register_subrange_spec) and the alias
+   substitution of SignalSource::load_signals (its shape is proved under C07); decided by the correspondence run. *)
 From WV Require Import Model.Base Model.Bits Model.WaveMem Model.Slice Spec.StoreSpec Proofs.BitsProofs Proofs.StoreProofs Proofs.EncoderProofs
-  Proofs.SliceProofs Proofs.SliceSignalProofs.
+  Proofs.SliceProofs Proofs.SliceSignalProofs Model.GhwAlias Proofs.AliasProofs.
 Open Scope N_scope.
 
 (* for every state kind, parent width and sub-range strictly inside the parent: slicing the packed
@@ -68,7 +76,37 @@ Check recorded_then_sliced :
     slice_signal debug parent msb lsb = Ok sliced /\
     observe_signal sliced = outcome_map render_of (dedup (map (slice_entry bits msb lsb) (dedup R))).
 
+(* the alias arithmetic of the GHW hierarchy reader *)
+Check @alias_bounds_select :
+  forall (A : Type) (syms : list A) pmin pmax mn mx,
+  (pmin <= mn)%nat -> (mn <= mx)%nat -> (mx <= pmax)%nat -> length syms = (pmax - pmin + 1)%nat ->
+  let bits := (pmax - pmin + 1)%nat in let msb := (pmax - mn)%nat in let lsb := (pmax - mx)%nat in
+  (lsb <= msb)%nat /\ (msb < bits)%nat /\
+  firstn (msb - lsb + 1) (skipn (bits - 1 - msb) syms) = firstn (mx - mn + 1) (skipn (mn - pmin) syms).
+
+Check register_subrange_spec :
+  forall t mn mx two vid v,
+  alias_ok t -> find_vec t mn mx = Ok (Some vid) -> nth_error (tr_vectors t) vid = Some v ->
+  (vi_min v <= mn)%nat -> (mn <= mx)%nat -> (mx <= vi_max v)%nat -> ~ (mx = vi_max v /\ mn = vi_min v) ->
+  exists t' r,
+    register_bit_vec t mn mx two = Ok (t', r) /\ alias_ok t' /\ extends t t' /\
+    (exists k a, nth_error (tr_aliases t') k = Some a /\
+                 ai_msb a = (vi_max v - mn)%nat /\ ai_lsb a = (vi_max v - mx)%nat /\ ai_ref a = r) /\
+    ((t' = t /\ (r < tr_count t)%nat) \/
+     (r = tr_count t /\ tr_count t' = S r /\ length (tr_aliases t') = S (length (tr_aliases t)) /\
+      exists a, nth_error (tr_aliases t') (length (tr_aliases t)) = Some a /\ ai_ref a = r)).
+
+Check refs_distinct_step :
+  forall t t' r, alias_ok t -> refs_distinct t -> extends t t' ->
+  ((t' = t /\ (r < tr_count t)%nat) \/
+   (r = tr_count t /\ tr_count t' = S r /\ length (tr_aliases t') = S (length (tr_aliases t)) /\
+    exists a, nth_error (tr_aliases t') (length (tr_aliases t)) = Some a /\ ai_ref a = r)) ->
+  refs_distinct t'.
+
 Print Assumptions slice_n_states_spec.
+Print Assumptions alias_bounds_select.
+Print Assumptions register_subrange_spec.
+Print Assumptions refs_distinct_step.
 Print Assumptions slice_n_states_sem.
 Print Assumptions slice_signal_spec.
 Print Assumptions recorded_then_sliced.
